@@ -500,6 +500,51 @@ fn url_slice(argv: &[String]) {
         }
         part.sample(json!({"url": url.replace(&port.to_string(), "PORT"), "broker_saw": format!("{:?}", got)}));
     }
+    // amqps: the connection timeout of the URL also governs the TLS handshake. A peer that
+    // accepts the TCP connection and then says nothing: the secure open must give up with
+    // ConnectionTimeout (400 ms configured; 10 s allowed, one retry - real time, real sockets).
+    {
+        let l4 = std::net::TcpListener::bind("127.0.0.1:0").unwrap();
+        let port = l4.local_addr().unwrap().port();
+        // (localhost may resolve to ::1 as well: the same silence there, where IPv6 exists)
+        let l6 = std::net::TcpListener::bind(("::1", port)).ok();
+        let hold = std::sync::Arc::new(std::sync::Mutex::new(Vec::new()));
+        for l in std::iter::once(l4).chain(l6) {
+            let hold = hold.clone();
+            std::thread::spawn(move || {
+                for s in l.incoming().flatten() {
+                    hold.lock().unwrap().push(s);
+                }
+            });
+        }
+        let url = format!("amqps://localhost:{}?connection_timeout=400", port);
+        part.evaluations += 1;
+        part.distinct_nontrivial += 1;
+        let mut verdict: Option<String> = None;
+        for attempt in 0..2 {
+            let (tx, rx) = std::sync::mpsc::channel();
+            let u = url.clone();
+            std::thread::spawn(move || {
+                let r = amiquip::Connection::open(&u).map(|_| ());
+                let _ = tx.send(r.map_err(|e| format!("{:?}", e)));
+            });
+            match rx.recv_timeout(std::time::Duration::from_secs(10)) {
+                Ok(Err(e)) if e.starts_with("ConnectionTimeout") => {
+                    verdict = None;
+                    break;
+                }
+                Ok(other) => {
+                    verdict = Some(format!("result {:?}", other));
+                    break;
+                }
+                Err(_) => verdict = Some(format!("no result within 10 s (attempt {})", attempt + 1)),
+            }
+        }
+        if let Some(v) = verdict {
+            part.violation("urlslice:amqps-timeout", format!("amqps://localhost:PORT?connection_timeout=400 against a peer that accepts and stays silent: {}, expected ConnectionTimeout", v), json!({"engine":"simx","scenario":"urlslice","url":url}));
+        }
+        part.sample(json!({"url": "amqps://localhost:PORT?connection_timeout=400", "peer": "silent"}));
+    }
     part.extra.insert("skipped_hosts".into(), json!(skipped));
     part.finish(out.as_deref());
 }
